@@ -1445,6 +1445,10 @@ func (t *FnTrans) siteHook(kind string, in ssa.Instruction, b *ssa.BasicBlock, i
 				env.vars[fmt.Sprintf("result%d", i)] = t.val(a)
 			}
 		}
+		if sto, ok := in.(*ssa.Store); ok {
+			// store (hook runs before the instruction): the value being stored
+			env.vars["value"] = t.val(sto.Val)
+		}
 		if mu, ok := in.(*ssa.MapUpdate); ok {
 			// map update (hook runs before the instruction): the key and the value being stored
 			env.vars["key"], env.vars["value"] = t.val(mu.Key), t.val(mu.Value)
